@@ -5,6 +5,22 @@ ROOT = os.path.dirname(os.path.dirname(os.path.abspath(__file__)))
 
 # id -> (technique, level text, level note, design section)
 CHECKS = {
+ "C02": ("runtime monitor: framing oracle computed from (type, version, declared length, available bytes) over a complete type x length sweep, all versions and every prefix length",
+         "Raw and encrypted record parsers are executed on all 256 types x 65536 declared lengths (complete), all 65536 versions and every prefix of boundary/random records; the plaintext parser on generated valid records, every prefix of them, all 256 types and the 'complete record whose content wants more bytes' family. Exhaustive for the (type, length) domain of the opaque parsers; sampled for payload contents.",
+         "Needed while fewer than 5 bytes are available and addresses of empty slices are not judged; plaintext message contents are C03.",
+         "3/C02"),
+ "C03": ("runtime monitor: reference-encoded message lists with predictable tails, one-step vs two-step differential, all alerts / all content types swept",
+         "Records are built by an independent reference encoder from generated message lists (all 65536 alerts, CCS lists, the 17 handshake variants, application data of every length class, heartbeat with padding) and must decode, by both routes, to exactly the expected crate values; malformed-first-message, empty and unknown-type records must yield no value; the two-step remainder must be the undecoded tail by address.",
+         "Reference encoder (harness/src/refenc.rs, written from the RFCs) is the trusted side; error kinds unjudged.",
+         "3/C03"),
+ "C04": ("runtime monitor: reference encoder round trip for 17 handshake variants + must-reject catalogue R1-R11 + structural oracle on all single length-field corruptions",
+         "Generated abstract values of every variant are encoded by the reference encoder and must parse (message parser and every public body parser) to the expected crate value with the exact remainder; the catalogue of structurally invalid encodings (A.2) must never yield a value, with complete sweeps where the domain is finite (session-id length 33..255, 65531 ServerHello versions, 240 unknown types, all ClientHello versions); accepted corrupted encodings must stay inside their 24-bit length.",
+         "Reference encoder is the trusted side; listed unjudged behaviours (optional trailing parts, CertificateRequest two-form ambiguity) are recorded, not judged.",
+         "3/C04"),
+ "C17": ("runtime monitor: complete sweep of every registry newtype's integer domain against independently typed IANA tables",
+         "All 207 named constants are compared with IANA/RFC values typed independently; for every value of each of the 18 newtypes' domains (256 or 65536) Display/Debug text, integer conversions, SignatureScheme split and key_bits() are executed and judged. The domain is finite and swept completely on every run.",
+         "IANA tables in harness/src/iana.rs are the trusted side (one row marked uncertain is unjudged on disagreement); x25519 key_bits recorded, not judged.",
+         "3/C17"),
  "C08": ("runtime monitor: complete state x direction x message-kind sweep of the real transition function against a reference relation, plus lock-step random walks and documented flows",
          "Every cell of the 25x2x{18 handshake kinds, CCS, 65536 alerts, app data, heartbeat} table is executed on the real function on every run and compared with a reference relation written from the property text; content-independence is probed with 64 random payloads per cell. The judged domain is finite and swept completely, so the table part is exhaustive; walks/flows add history-level observations.",
          "Reference relation (DESIGN appendix A.1) is the trusted side; open cells carry allowed sets. ClientHello with Some(empty) session id is outside the generated domain.",
